@@ -19,6 +19,17 @@ func (s Edge) Pick(direction graph.Direction) uint64 {
 	return s.Start
 }
 
+// Other returns the endpoint of the edge opposite to the given node. For a self loop it returns the node itself.
+// Unlike Pick it is also correct for edges collected with graph.DirectionBoth, where the far end of an edge
+// depends on the node it was reached from and not on the direction alone.
+func (s Edge) Other(node uint64) uint64 {
+	if s.Start == node {
+		return s.End
+	}
+
+	return s.Start
+}
+
 type Triplestore interface {
 	DirectedGraph
 
@@ -164,8 +175,7 @@ func (s *triplestore) adjacent(node uint64, direction graph.Direction) cardinali
 				nodes.Add(edge.Start)
 
 			default:
-				nodes.Add(edge.End)
-				nodes.Add(edge.Start)
+				nodes.Add(edge.Other(node))
 			}
 		}
 
@@ -291,6 +301,6 @@ func (s *triplestoreProjection) EachAdjacentEdge(node uint64, direction graph.Di
 
 func (s *triplestoreProjection) EachAdjacentNode(node uint64, direction graph.Direction, delegate func(adjacent uint64) bool) {
 	s.EachAdjacentEdge(node, direction, func(next Edge) bool {
-		return delegate(next.Pick(direction))
+		return delegate(next.Other(node))
 	})
 }
